@@ -162,7 +162,9 @@ func c16Strings(thorough bool) []string {
 		cur = next
 	}
 	out = append(out, "&amp;", "&lt;b&gt;", "<script>alert(1)</script>", "</script>", "a&b;c", "&#39;", "x\u2028y\u2029z", "\u0085\u00a0\ufeff", "ab€defghij", "日本語のテキスト", strings.Repeat("ab<&'\" \n", 1250),
-		strings.Repeat("a", 70)+"&"+strings.Repeat("b", 70), "]]>", "<!--", "a\x00b", "\a\v\f\b", "\x7f", "𝒳𝒴", "é")
+		strings.Repeat("a", 70)+"&"+strings.Repeat("b", 70), "]]>", "<!--", "a\x00b", "\a\v\f\b", "\x7f", "𝒳𝒴", "é",
+		// non-printable and unassigned characters in and outside the basic plane
+		"\U000E0001", "a\U000F0000b", "\U0010FFFF", "\u200b\u00ad", "\ufffe", "x\u0600y", "\U0001D11E\U000E0020", "\U0001F600\U000E0001!")
 	return out
 }
 
@@ -277,7 +279,7 @@ func checkC16(c *Ctx) {
 							bad("escapeJsString output can be placed between quotes in a script", "js-syntax", "js", 0, "a string literal", q+out+q+": "+err.Error())
 							break
 						}
-						if got := v.String(); got != s && !hasAstral(s) {
+						if got := v.String(); got != s {
 							bad("escapeJsString output evaluates to the value", "js-value", "js", 0, fmt.Sprintf("%q", s), fmt.Sprintf("%s evaluates to %q", q+out+q, got))
 							break
 						}
@@ -292,7 +294,7 @@ func checkC16(c *Ctx) {
 				} else if bs, isStr := back.(string); valid && (!isStr || bs != s) {
 					bad("json output parses to a value equal to the input", "json-value", "json", 0, fmt.Sprintf("%q", s), fmt.Sprintf("%s parses to %v", out, back))
 				}
-				if valid && !hasAstral(s) {
+				if valid {
 					if v, err := jsRun(vm, "JSON.parse("+jsLit(out)+")"); err != nil || v.String() != s {
 						bad("json output parses (JavaScript JSON.parse) to the input", "json-jsparse", "json", 0, fmt.Sprintf("%q", s), fmt.Sprintf("%s: %v %v", out, v, err))
 					}
